@@ -49,7 +49,7 @@ def one(args):
 
 
 def run(ctx):
-    n = 260 if ctx.quick else 4000
+    n = 260 if ctx.quick else 2000
     jobs = [(ctx.seed, i, ctx.tier) for i in range(n)]
     with cf.ThreadPoolExecutor(max_workers=14) as ex:
         results = list(ex.map(one, jobs))
